@@ -675,7 +675,7 @@ def rule_state(ctx, p: Project):
     ok = ok and pa is not None and norm_text(pa.args[0]) == "P_inorder" and norm_text(inl(pa.args[1])).replace(" ", "") == sel
     ok = ok and Pst is not None and norm_text(Pst.value) == "False"
     if ok:
-        ok = d.lineno < U.lineno and d.lineno < pin.lineno and d.lineno < Pst.lineno
+        ok = d is not None and d.lineno < U.lineno and d.lineno < pin.lineno and d.lineno < Pst.lineno
     ctx.ob(rule, "fix: factor, ordered list and P lose the same indices (d <= tolerance)", ok, where=g, node=U or pin or g.node,
            construct="id_delete = where(d[P_inorder] <= tolerance); U = choldeleteindexes(U, id_delete); P_inorder = delete(P_inorder, id_delete); P[d <= tolerance] = False",
            message="the Cholesky factor, the ordered passive list and the boolean passive set must drop exactly the same indices, selected by d <= tolerance after the step")
